@@ -96,8 +96,7 @@ Proof.
       * apply in_map_iff in H. destruct H as (q & [= ->] & H). contradiction.
       * cbn [In] in H. destruct H as [H|H]; [discriminate|].
         apply in_map_iff in H. destruct H as (q & [= ] & _).
-    + apply NoDup_remove_2 with (a := (Minus, p)) in IH || idtac.
-      assert (G : NoDup (map (pair Plus) l ++ (Minus, p) :: map (pair Minus) l)).
+    + assert (G : NoDup (map (pair Plus) l ++ (Minus, p) :: map (pair Minus) l)).
       { apply NoDup_Add with (a := (Minus, p)) (l := map (pair Plus) l ++ map (pair Minus) l).
         - apply Add_app.
         - split; [exact IH|]. rewrite in_app_iff. intros [H|H].
@@ -304,3 +303,180 @@ Proof.
   unfold bound. split; [apply map_length|].
   induction (index k rows); cbn; constructor; auto.
 Qed.
+
+
+(* ---------- strata ---------- *)
+
+Definition in_stratum (c : option Z) (rw : row) : bool := oz_eqb (rc rw) c.
+Definition restrict_rows (c : option Z) (rows : list row) : list row := filter (in_stratum c) rows.
+Definition restrict_vec (c : option Z) (rows : list row) (h : list Q) : list Q :=
+  map snd (filter (fun t => in_stratum c (fst t)) (combine rows h)).
+
+Lemma sum_on_restrict k c p rows h :
+  (forall rw, p rw = true -> in_stratum c rw = true) ->
+  sum_on p rows (pred k rows h)
+  = sum_on p (restrict_rows c rows) (pred k (restrict_rows c rows) (restrict_vec c rows h)).
+Proof.
+  intro Hp. revert h. induction rows as [|x rows IH]; intro h.
+  - reflexivity.
+  - destruct h as [|y h].
+    + unfold restrict_vec. cbn [combine filter map]. unfold pred. cbn [zipw].
+      rewrite sum_on_nil_r. destruct (restrict_rows c (x :: rows)); [reflexivity|].
+      cbn [zipw]. rewrite sum_on_nil_r. reflexivity.
+    + unfold restrict_rows, restrict_vec, pred. cbn [combine filter zipw fst].
+      fold (pred k rows h). rewrite sum_on_cons.
+      destruct (in_stratum c x) eqn:K.
+      * cbn [map snd zipw]. fold (restrict_rows c rows) (restrict_vec c rows h).
+        fold (pred k (restrict_rows c rows) (restrict_vec c rows h)).
+        rewrite sum_on_cons, IH. reflexivity.
+      * fold (restrict_rows c rows) (restrict_vec c rows h).
+        fold (pred k (restrict_rows c rows) (restrict_vec c rows h)).
+        destruct (p x) eqn:P; [apply Hp in P; congruence|]. apply IH.
+Qed.
+
+Lemma cnt_restrict c p rows :
+  (forall rw, p rw = true -> in_stratum c rw = true) ->
+  cnt p rows = cnt p (restrict_rows c rows).
+Proof.
+  intro Hp. unfold cnt, count_if, restrict_rows. f_equal.
+  induction rows as [|x rows IH]; [reflexivity|]. cbn [filter].
+  destruct (in_stratum c x) eqn:K; cbn [filter].
+  - destruct (p x); cbn [length]; rewrite IH; reflexivity.
+  - destruct (p x) eqn:P; [apply Hp in P; congruence | exact IH].
+Qed.
+
+(* strata_independent: the entries of a control stratum are those of the moment loaded on that stratum alone *)
+Theorem strata_independent (k : kind) (r : Q) (rows : list row) (h : list Q) (s : sign) (e : event) (g : Z) :
+  In (e, g) (pairs_of k rows) ->
+  let c := fst e in
+  gamma_at k r rows h (s, (e, g))
+  == gamma_at k r (restrict_rows c rows) (restrict_vec c rows h) (s, (e, g)).
+Proof.
+  intros Hin c.
+  assert (He : forall rw, in_event k e rw = true -> in_stratum c rw = true).
+  { intros rw H. apply in_event_iff in H. apply event_some in H. destruct H as [H _].
+    unfold in_stratum, c. apply oz_eqb_eq. auto. }
+  assert (Heg : forall rw, in_eg k e g rw = true -> in_stratum c rw = true).
+  { intros rw H. apply He. unfold in_eg in H. apply andb_true_iff in H. tauto. }
+  assert (Hin' : In (e, g) (pairs_of k (restrict_rows c rows))).
+  { apply pairs_of_In in Hin. destruct Hin as (rw & A & B & C). apply pairs_of_In.
+    exists rw. split; [|auto]. apply filter_In. split; [exact A|].
+    apply He. apply in_event_iff. exact B. }
+  destruct (gamma_spec k r rows h e g Hin) as [P M].
+  destruct (gamma_spec k r _ (restrict_vec c rows h) e g Hin') as [P' M'].
+  cbv zeta in P, M, P', M'. unfold mean_on in *.
+  rewrite <- (sum_on_restrict k c _ rows h He), <- (sum_on_restrict k c _ rows h Heg),
+    <- (cnt_restrict c _ rows He), <- (cnt_restrict c _ rows Heg) in P', M'.
+  destruct s; [rewrite P, P' | rewrite M, M']; reflexivity.
+Qed.
+
+
+(* ---------- BoundedGroupLoss ---------- *)
+
+Lemma Qleb_le a b : Qleb a b = true <-> a <= b.
+Proof. unfold Qleb. apply Qle_bool_iff. Qed.
+
+Lemma clip_range lo hi x : lo <= hi -> lo <= clip lo hi x /\ clip lo hi x <= hi.
+Proof.
+  intro H. unfold clip, Qminq, Qmaxq.
+  destruct (Qleb x lo) eqn:A.
+  - apply Qleb_le in A. destruct (Qleb lo hi) eqn:B; [split; lra|].
+    assert (~ lo <= hi) by (rewrite <- Qleb_le; congruence). contradiction.
+  - assert (A' : ~ x <= lo) by (rewrite <- Qleb_le; congruence).
+    destruct (Qleb x hi) eqn:B.
+    + apply Qleb_le in B. split; lra.
+    + split; lra.
+Qed.
+
+(* the clipped loss lies in [0, loss.max] *)
+Lemma loss_range (l : loss) (y p : Q) :
+  (match l with Square lo hi | Absolute lo hi => lo <= hi end) ->
+  0 <= loss_eval l y p /\ loss_eval l y p <= loss_max l.
+Proof.
+  destruct l as [lo hi|lo hi]; intro H; cbn [loss_eval loss_max];
+    destruct (clip_range lo hi y H) as [Y1 Y2]; destruct (clip_range lo hi p H) as [P1 P2].
+  - cbv zeta. set (d := clip lo hi y - clip lo hi p).
+    assert (D1 : - (hi - lo) <= d) by (unfold d; lra).
+    assert (D2 : d <= hi - lo) by (unfold d; lra).
+    split; nra.
+  - destruct (qabs_spec (clip lo hi y - clip lo hi p)) as [A1 A2].
+    destruct (qabs_spec (hi - lo)) as [B1 _]. rewrite B1 by lra.
+    destruct (Qlt_le_dec (clip lo hi y - clip lo hi p) 0) as [C|C].
+    + rewrite A2 by lra. split; lra.
+    + rewrite A1 by lra. split; lra.
+Qed.
+
+(* bgl_gamma_spec: one entry per group that occurs (in sorted order); the entry of group g is the mean of the
+   clipped loss over the rows of g *)
+Theorem bgl_gamma_spec (l : loss) (rows : list lrow) (h : list Q) :
+  bgl_gamma l rows h
+  = map (fun g => let sel := filter (fun t => (fst t =? g)%Z) (combine (map snd rows) (losses l rows h)) in
+                  qsum (map snd sel) / inject_nat (length sel)) (bgl_index rows)
+  /\ losses l rows h = zipw (fun rw p => loss_eval l (fst rw) p) rows h.
+Proof. split; reflexivity. Qed.
+
+Lemma zinsert_In x y l : In y (zinsert x l) <-> y = x \/ In y l.
+Proof.
+  induction l as [|z l IH]; cbn [zinsert].
+  - cbn. intuition.
+  - destruct (x <? z)%Z; [cbn; intuition|].
+    destruct (x =? z)%Z eqn:E.
+    + apply Z.eqb_eq in E. subst z. cbn. intuition.
+    + cbn [In]. rewrite IH. intuition.
+Qed.
+
+Lemma zuniq_In y l : In y (zuniq l) <-> In y l.
+Proof.
+  unfold zuniq. induction l as [|x l IH]; cbn [fold_right]; [tauto|].
+  rewrite zinsert_In, IH. cbn. intuition.
+Qed.
+
+(* the index of BoundedGroupLoss is exactly the set of groups that occur *)
+Theorem bgl_index_exact (rows : list lrow) (g : Z) :
+  In g (bgl_index rows) <-> exists rw, In rw rows /\ snd rw = g.
+Proof.
+  unfold bgl_index. rewrite zuniq_In, in_map_iff. split; intros (rw & A & B); exists rw; auto.
+Qed.
+
+(* ---------- the shapes the source translator (t_moments) must regenerate: props/C06.v restates these with the
+   generated definitions in place of the inlined expressions; `exact` then checks convertibility ---------- *)
+
+Lemma src_uentry k r s e g pe peg rw :
+  uentry k r s e g pe peg rw =
+  let es := ind (in_event k e rw) in
+  let ges := es * ind (in_group g rw) in
+  match s with
+  | Plus => es / pe + (- r) * ges / peg
+  | Minus => (- r) * es / pe + ges / peg
+  end.
+Proof. reflexivity. Qed.
+
+Lemma src_event_of k rw :
+  event_of k rw = match base_event k (ry rw) with Some b => Some (rc rw, b) | None => None end.
+Proof. reflexivity. Qed.
+
+Lemma src_base_event y :
+  base_event DP y = Some 2%Z /\
+  base_event TPR y = (if (y =? 1)%Z then Some y else None) /\
+  base_event FPR y = (if (y =? 0)%Z then Some y else None) /\
+  base_event EO y = Some y /\
+  base_event ERP y = Some 2%Z.
+Proof. repeat split. Qed.
+
+Lemma src_utilities rw :
+  (u0 DP rw = 0 /\ u1 DP rw = 1) /\ (u0 TPR rw = 0 /\ u1 TPR rw = 1) /\ (u0 FPR rw = 0 /\ u1 FPR rw = 1) /\
+  (u0 EO rw = 0 /\ u1 EO rw = 1) /\ (u0 ERP rw = inject_Z (ry rw) /\ u1 ERP rw = 1 - inject_Z (ry rw)).
+Proof. repeat split. Qed.
+
+Lemma src_pred k rows h :
+  pred k rows h = zipw (fun rw hi => udiff k rw * hi + u0 k rw) rows h.
+Proof. reflexivity. Qed.
+
+Lemma src_gamma_at k r rows h j :
+  gamma_at k r rows h j = - dot (ucol k r rows j) (pred k rows h) / nrows rows.
+Proof. reflexivity. Qed.
+
+Lemma src_prob k rows e g :
+  prob_event k rows e = inject_nat (count_if (in_event k e) rows) / nrows rows /\
+  prob_group_event k rows e g = inject_nat (count_if (in_eg k e g) rows) / nrows rows.
+Proof. split; reflexivity. Qed.
